@@ -432,11 +432,8 @@ func (c *Cluster) checkRegionLocked(addr string, name, row []byte, e *Exec) (*Re
 	}
 	if row != nil && !r.Contains(row) {
 		e.Result = "wrongregion"
-		if !e.Probe {
-			// (the client's region probe uses start key + 17 zero bytes, which may lie
-			// outside a tiny region; servers answer WrongRegionException, harmlessly)
-			c.problemLocked("misrouted: row %q sent to region %q [%q,%q) on %s", row, r.Name, r.Start, r.Stop, addr)
-		}
+		// (the client's own region probe included: it is a get like any other)
+		c.problemLocked("misrouted: row %q sent to region %q [%q,%q) on %s (probe=%v)", row, r.Name, r.Start, r.Stop, addr, e.Probe)
 		return nil, &Exc{Class: WrongRegion, Stack: fmt.Sprintf("%s: row %q out of range for region %s", WrongRegion, row, name)}
 	}
 	if len(r.Transient) > 0 {
